@@ -360,6 +360,75 @@ def rule_tb_generic(ctx, prog, rid, fns, control=False):
     return 0 if control else n
 
 
+# (callee last name) -> (index of the pointer argument, indices of the arguments whose product is
+# the number of elements accessed through it)
+BUF_SINKS = {
+    'read': [(1, (2,))], 'pread': [(1, (2,))], 'recv': [(1, (2,))], 'write': [(1, (2,))],
+    'fread': [(0, (1, 2))], 'fwrite': [(0, (1, 2))], 'fgets': [(0, (1,))],
+    'snprintf': [(0, (1,))], 'vsnprintf': [(0, (1,))],
+    'memcpy': [(0, (2,)), (1, (2,))], 'memmove': [(0, (2,)), (1, (2,))], 'memcmp': [(0, (2,)), (1, (2,))],
+    'memchr': [(0, (2,))], 'memset': [(0, (2,))], 'strncmp': [(0, (2,)), (1, (2,))], 'strncpy': [(0, (2,)), (1, (2,))],
+    'getloadavg': [(0, (1,))],
+}
+STRING_LIKE = ('basic_string', 'StringPiece', 'append', 'assign', 'emplace_back', 'push_back', 'insert', 'replace',
+               'string', 'write')
+
+
+def rule_tb2(ctx, prog, rid, fns, control=False):
+    """A local fixed-size array handed to a call together with an explicit length: the length is
+    bounded by the array's size at that point."""
+    import re
+    n = bad = 0
+    for f in fns:
+        arrs = {}
+        for e in f.events('decl'):
+            m = re.match(r'^(?:const )?(?:unsigned |signed )?(\w+) ?\[(\d+)\]$', e.get('ty') or '')
+            if m:
+                arrs[e['n']] = int(m.group(2))
+        if not arrs:
+            continue
+        for e in f.events('call'):
+            args = e.get('args') or []
+            ln = lastname(e.get('name') or '')
+            ln = ln.split('<')[0]
+            for i, a in enumerate(args):
+                sa = strip(a)
+                if not (isinstance(sa, dict) and sa.get('k') == 'var' and sa['n'] in arrs):
+                    continue
+                size = arrs[sa['n']]
+                lens = None
+                for pi, li in BUF_SINKS.get(ln, []):
+                    if pi == i:
+                        lens = li
+                if lens is None and i + 1 < len(args) and not ln.startswith(('find', 'rfind')):
+                    nx = strip(args[i + 1]) if not (isinstance(args[i + 1], dict) and args[i + 1].get('k') == 'cast') else args[i + 1]
+                    t = (nx.get('tk') if isinstance(nx, dict) else None)
+                    if (ln in STRING_LIKE or ln not in BUF_SINKS) and (t in ('int', 'uint') or
+                                                                      (isinstance(nx, dict) and nx.get('k') in ('cast', 'sizeof', 'int'))):
+                        lens = (i + 1,)
+                if lens is None:
+                    continue
+                hi = 1
+                parts = []
+                for li in lens:
+                    if li >= len(args):
+                        hi = INF
+                        break
+                    lo1, h1 = bounds(f, e, args[li])
+                    if h1 == INF and upper_by_fact(f, e, args[li], lambda x: const_value(x) is not None and const_value(x) <= size + 1):
+                        h1 = size
+                    parts.append(dstr(args[li]))
+                    hi = hi * h1 if h1 != INF and hi != INF else INF
+                n += 1
+                ok = hi <= size
+                if control:
+                    bad += 0 if ok else 1
+                    continue
+                ctx.check(rid, ok, f.name, 'buffer-length:%s:%s' % (sa['n'], ln), f.where(e),
+                          '%s(%s[%d], %s): the length is at most %s' % (ln, sa['n'], size, ' * '.join(parts), hi))
+    return bad if control else n
+
+
 # ------------------------------------------------------------------------------------------------
 
 def run(ctx):
@@ -453,6 +522,12 @@ def run(ctx):
             rule_tb_generic(ctx, fx, 'C13.TB1', [fx.fn('nvctl::CheckedIndex')], control=True) == 1:
         raise AnalysisBroken('TB control failed')
     ctx.inst('C13.TB1', 'fixtures/controls.cc', 'controls: nvctl::UncheckedIndex fires, nvctl::CheckedIndex is silent')
+    nb = rule_tb2(ctx, prog, 'C13.TB1', [f for f in prog.functions.values() if not f.file.startswith('third_party')])
+    if rule_tb2(ctx, fx, 'C13.TB1', [fx.fn('nvctl::UnboundedFormattedLength')], control=True) < 1 or \
+            rule_tb2(ctx, fx, 'C13.TB1', [fx.fn('nvctl::BoundedReadLength')], control=True) != 0:
+        raise AnalysisBroken('TB2 control failed')
+    ctx.inst('C13.TB1', 'fixtures/controls.cc', 'controls: nvctl::UnboundedFormattedLength fires, nvctl::BoundedReadLength is silent')
+    ctx.check('C13.TB1', nb >= 30, 'buffer+length', 'buffer-length:sites', 'src', '%d (local array, length) call sites examined' % nb)
     # the build log loader has no file-derived subscripts at all
     bl = prog.fn('BuildLog::Load')
     subs = [e for e in bl.events('idx')] + [e for e in bl.events('call') if e.get('op') == '[]']
